@@ -122,18 +122,19 @@ func objClass(o string) string {
 
 // Exec is the result of one execution.
 type Exec struct {
-	Points       []Point
-	Choices      []int
-	Panic        string // non-empty if a thread panicked (value + stack)
-	PanicThread  string
-	Deadlock     string   // non-empty on deadlock (wait-for description)
-	Horizon      bool     // step limit hit
-	Divergence   string   // replay divergence (harness error)
-	SleepBlocked bool     // abandoned: every enabled thread was in the sleep set (redundant execution)
-	LiveThreads  []string // threads (created through Go) still alive when main returned
-	Races        []Race
-	Steps        int
-	Trace        []string // per step "T<id>:<label>" (only when Sched.KeepTrace)
+	Points        []Point
+	Choices       []int
+	Panic         string // non-empty if a thread panicked (value + stack)
+	PanicThread   string
+	Deadlock      string   // non-empty on deadlock (wait-for description)
+	Horizon       bool     // step limit hit
+	Divergence    string   // replay divergence (harness error)
+	PrivateBroken bool     // a mutex treated as thread-private (PrivateQuiet) was later used by a second thread
+	SleepBlocked  bool     // abandoned: every enabled thread was in the sleep set (redundant execution)
+	LiveThreads   []string // threads (created through Go) still alive when main returned
+	Races         []Race
+	Steps         int
+	Trace         []string // per step "T<id>:<label>" (only when Sched.KeepTrace)
 }
 
 // Failed reports whether the execution ended abnormally.
@@ -143,26 +144,27 @@ func (x *Exec) Failed() bool {
 
 // Sched is a cooperative scheduler for one execution.
 type Sched struct {
-	threads    []*thread
-	cur        *thread
-	prefix     []int
-	x          *Exec
-	finished   chan struct{}
-	finishOnce sync.Once
-	aborting   bool
-	MaxSteps   int
-	TickBudget int
-	KeepTrace  bool
-	TrackRaces bool
-	UseSleep   bool  // sleep-set reduction (thread-start transitions commute with everything)
-	SleepAt    []int // thread ids asleep at the last choice point of the prefix
-	sleep      map[int]bool
-	accesses   map[string][]Access
-	raceKeys   map[string]bool
-	lockVCs    map[interface{}]*lockVC
-	mainDone   bool
-	clock      int
-	lockNames  map[interface{}]string
+	threads      []*thread
+	cur          *thread
+	prefix       []int
+	x            *Exec
+	finished     chan struct{}
+	finishOnce   sync.Once
+	aborting     bool
+	MaxSteps     int
+	TickBudget   int
+	KeepTrace    bool
+	TrackRaces   bool
+	PrivateQuiet bool  // operations on a mutex only one thread has ever used are not scheduling points
+	UseSleep     bool  // sleep-set reduction (thread-start transitions commute with everything)
+	SleepAt      []int // thread ids asleep at the last choice point of the prefix
+	sleep        map[int]bool
+	accesses     map[string][]Access
+	raceKeys     map[string]bool
+	lockVCs      map[interface{}]*lockVC
+	mainDone     bool
+	clock        int
+	lockNames    map[interface{}]string
 }
 
 // lockName returns a name for the lock that is stable across executions of the same schedule
@@ -605,8 +607,34 @@ func RecordAccess(obj string, write bool, lo, hi int64, label string) {
 
 // Mutex replaces sync.Mutex.
 type Mutex struct {
-	real   sync.Mutex
-	locked bool
+	real    sync.Mutex
+	locked  bool
+	user    int  // id+1 of the only thread that has used the mutex so far (0: none)
+	shared  bool // more than one thread has used it
+	skipped bool // a scheduling point was skipped because the mutex was thread-private (see Sched.PrivateQuiet)
+}
+
+// private reports whether the running thread is the only one that has ever used m, and records the use.
+// With Sched.PrivateQuiet, operations on a thread-private mutex are not scheduling points (they are always
+// enabled and commute with every transition of every other thread). If a second thread touches a mutex
+// whose points were skipped, the assumption was wrong for this scenario: Exec.PrivateBroken is set and the
+// explorer repeats the scenario without the reduction.
+func (m *Mutex) private(s *Sched) bool {
+	id := s.cur.id + 1
+	if m.user == 0 {
+		m.user = id
+	}
+	if m.user != id {
+		m.shared = true
+		if m.skipped {
+			s.x.PrivateBroken = true
+		}
+	}
+	if !s.PrivateQuiet || m.shared {
+		return false
+	}
+	m.skipped = true
+	return true
 }
 
 func (m *Mutex) name() string { return lockName(m, "M") }
@@ -621,7 +649,9 @@ func (m *Mutex) Lock() {
 	if s.aborting {
 		return
 	}
-	s.point("Mutex.Lock", func() bool { return !m.locked })
+	if !(m.private(s) && !m.locked) {
+		s.point("Mutex.Lock", func() bool { return !m.locked })
+	}
 	m.locked = true
 	s.acquired(m, m.name(), true)
 }
@@ -635,7 +665,9 @@ func (m *Mutex) TryLock() bool {
 	if s.aborting {
 		return true
 	}
-	s.point("Mutex.TryLock", nil)
+	if !m.private(s) {
+		s.point("Mutex.TryLock", nil)
+	}
 	if m.locked {
 		return false
 	}
